@@ -107,6 +107,37 @@ CHECKS = {
             "must match the reference CR3BP field at S(z) like r^N; the local origin must map to the point at rest and synodic2local(local2synodic(z)) = z. Exponents (not constants) are the oracle, so a wrong sign, frame, coefficient c_n or scaling shows as exponent 1-2.",
             "radius 0.35 in local units; exponent = median of the last pairwise ratios above the rounding floor, threshold declared-0.75; quick tier degrees {2,3,4,6,8} and 3 mass ratios, thorough 2..10 and 5.",
             "DESIGN.md C07"),
+    "C08": ("exploration",
+            "exhaustive examination of every monomial of degree 3..N of the normalised Hamiltonians (term structure) and radius ladders on a direction lattice for the three exponent statements (conjugacy, canonicity, inverse), on the pipeline and on one-monomial-at-a-time synthetic programs fed to the real Lie routines",
+            "For mu x {L1,L2} x N the partial normal form must have no monomial with k_q1 != k_p1 and the full normal form only exponent-balanced monomials (all coefficients examined, threshold 1e-11 of the largest coefficient of that degree); H_new(z) - H_old(Phi(z)), DPhi^T J DPhi - J and Phi^-1(Phi(z)) - z are "
+            "evaluated along 22 complex/real directions on a 5-rung radius ladder with the library's own series and must shrink like r^(N+1), r^N, r^(N+1). Synthetic programs: the true quadratic part plus each of the 56 cubic monomials (thorough: + 126 quartic) alone, through _lie_transform (partial and full) and _lie_expansion.",
+            "r0 = 0.08 in modal coordinates; exponent = median of the last pairwise ratios, threshold declared-0.75 (measured margins -0.07..0); resonant mass ratios are outside the alphabet.",
+            "DESIGN.md C08"),
+    "C09": ("exploration",
+            "exhaustive direction lattice ({-1,0,1}^4 minus 0) x radius ladder through the real CenterManifold.to_synodic / to_cm / hamiltonian, plus 4 section coordinates x plane lattice x energy ladder for the 2-D conversion, against a reference CR3BP energy",
+            "For systems x {L1,L2} x N in {4,6} (thorough +8): to_cm(to_synodic(p)) - p and (E(to_synodic(p)) - E_L)/gamma^2 - H_cm(p) along all 80 non-zero directions of {-1,0,1}^4 on a 5-rung ladder must shrink like r^(N+1); 2-D section points (9 per section coordinate) converted at energies h0*4^-k must come back "
+            "with the section coordinate, the plane coordinates, H_cm = h and the reference energy all converging at the same order.",
+            "get_lie_expansions is memoised per pipeline instance inside the harness (it is a deterministic function recomputed on every conversion); floors scale with |E_L|/gamma^2.",
+            "DESIGN.md C09"),
+    "C18": ("exploration",
+            "exhaustive enumeration of the conversion registry (read at run time) x points x mass ratios x degrees: every edge executed, both-direction edges composed, direct edge vs pipeline result; every substitution checked point-wise against the coordinate map on pipeline Hamiltonians and on every monomial of degree <= 3 alone + dense fills",
+            "All 13 registered edges are executed on the pipeline Hamiltonian of their source form for {L1,L2} x {EM, 9.5e-4} x degree {4,6} (thorough 2..8); the 5 edge pairs registered in both directions must compose to the identity coefficient-wise; _substitute_complex/_substitute_real/_polylocal2realmodal/_polyrealmodal2local "
+            "applied to 86+ arbitrary polynomials and the pipeline forms must satisfy new(x) = old(T x) on a real+complex lattice and undo each other; _solve_complex/_solve_real, modal<->local and local<->synodic (collinear and triangular) compose to the identity; _M _M_inv = I.",
+            "coefficient round trips compared at 1e-9 relative (conversions clean below 1e-14..1e-12).",
+            "DESIGN.md C18"),
+    "C03": ("exploration",
+            "exhaustive lattice mu x states x durations x methods x directions through the real _compute_stm, compared entry-wise with (a) Richardson finite differences of the library's own flow and (b) an independent variational reference; symplecticity in the harness-built two-form; periodic orbits' monodromy",
+            "For 3 mass ratios x 3 states (L1 vicinity, mid field, far side) x tf {0.3,1,2.5} x {adaptive 8, adaptive 5, fixed 8} x forward +-1 the returned Phi(tf) must equal the derivative of that same (forward or backward) flow: against 12 perturbed propagations of the library's own _propagate_dynsys (Richardson) "
+            "and against scipy DOP853 on harness-side variational equations; Phi^T W Phi = W with W built in the harness from canonical momenta, det = 1, reciprocal eigenvalue pairs; for corrected halo N/S and Lyapunov orbits at L1/L2: monodromy vs reference, M f(x0) = f(x0), stability indices vs reference pairs.",
+            "arcs that approach a primary closer than max(0.03, half a Hill radius) or stretch beyond 1e4 are skipped and counted; tolerances 1e-6 (reference), 2e-6 (finite differences), 1e-7*|Phi|^2 (two-form).",
+            "DESIGN.md C03"),
+    "C12": ("exploration",
+            "exhaustive product orbit menu x stable/unstable x direction x phase fractions x displacement x method through the real Manifold.compute; each retained seed compared with the eigenvector of a reference monodromy computed at its own base point",
+            "For corrected halo S/N and Lyapunov orbits at L1/L2, all four (stable, direction) branches, phases k/8 (thorough k/16), displacements 1e-6 and 1e-4: the base point of each seed is located by a 1-D search along a dense reference orbit, the reference monodromy at that point is integrated independently, and the seed offset must be "
+            "parallel to its eigenvector with multiplier inside/outside the unit circle (1e-3 rad + base-mismatch/displacement), of position norm = displacement; positive and negative seeds must be mirror images about the orbit; stable branches must carry non-positive decreasing times, unstable ones non-negative increasing; "
+            "the reference Jacobi constant must be kept along every retained trajectory.",
+            "base point = the orbit point minimising the angle (the statement allows any point of the orbit); orbits whose correction is rejected are counted, not failed.",
+            "DESIGN.md C12"),
 }
 
 NOT_YET = {
